@@ -112,13 +112,18 @@ class Parser:
             return ('tuple', ts)
         if self.accept('['):
             t = self.parse_type()
+            if self.accept(']'):
+                return 'slice'              # `[u64]`: a limb slice (List Nat)
             self.expect(';')
             n = self.parse_expr()
             self.expect(']')
             return ('array', t, n)
         if self.accept('&'):
-            self.accept('mut')
-            return self.parse_type()
+            m = self.accept('mut')
+            t = self.parse_type()
+            if t == 'slice' and m:
+                return 'mutslice'           # `&mut [u64]`: returned (updated) next to the function's own result
+            return t
         kind, v = self.next()
         if v == 'Wrapping':
             self.expect('<')
@@ -227,6 +232,25 @@ class Parser:
             c = self.parse_expr()
             b = self.parse_block()
             return ('while', c, b)
+        if v == 'for':
+            self.next()
+            var = self.next()[1]
+            self.expect('in')
+            rev = False
+            paren = self.accept('(')
+            lo = self.parse_expr(len(self.PREC) - 2)     # up to additive: `..` is not an operator here
+            self.expect('..')
+            hi = self.parse_expr(len(self.PREC) - 2)
+            if paren:
+                self.expect(')')
+                self.expect('.')
+                if self.next()[1] != 'rev':
+                    raise TranslateError('unsupported iterator adaptor')
+                self.expect('(')
+                self.expect(')')
+                rev = True
+            b = self.parse_block()
+            return ('for', var, lo, hi, rev, b)
         if v == 'loop':
             self.next()
             b = self.parse_block()
@@ -484,7 +508,7 @@ class Emitter:
         if k == 'index':
             s, t = self.expr(e[1], env)
             i, _ = self.expr(e[2], env, 'usize')
-            if t == 'uint':
+            if t in ('uint', 'slice', 'mutslice'):
                 return '(%s.getD %s 0)' % (s, i), 'u64'
             if t[0] != 'array':
                 raise TranslateError('index into non-array')
@@ -605,6 +629,8 @@ class Emitter:
                 sig = self.fns[key]
                 ss = [sr] + [self.expr(a, env, self.ty(pt))[0] for a, pt in zip(args, sig[1][1:])]
                 return '(%s %s)' % (sig[0], ' '.join(ss)), sig[2]
+        if tr in ('slice', 'mutslice', 'uint') and name == 'len':
+            return '(%s).length' % sr, 'usize'
         if tr == 'uint' and ('Uint::' + name) in self.fns:
             sig = self.fns['Uint::' + name]
             ss = ['BITS', 'LIMBS', sr] + [self.expr(a, env, self.ty(pt))[0] for a, pt in zip(args, sig[1][1:])]
@@ -642,6 +668,10 @@ class Emitter:
             elif s[0] == 'while':
                 for n in self.assigned(s[2][1], declared):
                     if n not in local and n not in out:
+                        out.append(n)
+            elif s[0] == 'for':
+                for n in self.assigned(s[5][1], declared):
+                    if n not in local and n not in out and n != s[1]:
                         out.append(n)
             elif s[0] in ('expr', 'expr_nosemi', 'tail') and s[1][0] == 'if':
                 for blk in (s[1][2], s[1][3]):
@@ -743,6 +773,15 @@ class Emitter:
             return '(%s, %s)' % (st, go), ('tuple', [ty, 'bool'])
         return self.vars_tuple(result, env)
 
+    def wrap_ret(self, term, env):
+        """function-level result: `&mut [u64]` parameters are returned (in order) in front of the function's own result"""
+        mr = getattr(self, 'mut_ret', None)
+        if not mr:
+            return term
+        muts, unit = mr
+        parts = [lean_ident(n) for n in muts] + ([] if unit else [term])
+        return parts[0] if len(parts) == 1 else '(' + ', '.join(parts) + ')'
+
     def names_in(self, node, acc):
         if isinstance(node, tuple):
             if node and node[0] == 'path' and len(node[1]) == 1:
@@ -772,7 +811,7 @@ class Emitter:
         if not S:
             raise TranslateError('loop without state')
         has_ret = self.fn_return_in(body)
-        if has_ret and result is not None:
+        if has_ret and result not in (None, 'fn'):
             raise TranslateError('return inside a nested loop is not supported')
         used = self.names_in([cond, body], set())
         ctx = [n for n in env if n in used and n not in S]
@@ -808,7 +847,7 @@ class Emitter:
         for i, n in enumerate(S):
             proj = ('.2' * i + ('.1' if i < len(S) - 1 else '')) if len(S) > 1 else ''
             after += 'let %s := %s%s\n  ' % (lean_ident(n), ('(%s)' % base) if has_ret else base, proj)
-        if has_ret and not rest:
+        if has_ret and not rest and self.inner_rt != ('tuple', []):
             body_rest, tb = 'default', self.cur_rt     # `loop { … return … }`: nothing follows; only reached when the fuel runs out
         else:
             body_rest, tb = self.stmts(rest, env, exp, result)
@@ -818,11 +857,28 @@ class Emitter:
 
     def stmts(self, stmts, env, exp, result):
         if not stmts:
+            if result == 'fn':
+                return self.wrap_ret('()', env), self.cur_rt
             if result is not None:
                 return self.finish(result, env)
             return '()', ('tuple', [])
         s, rest = stmts[0], stmts[1:]
         k = s[0]
+        if k == 'for':
+            # for i in lo..hi { body }  ==>  let hi' = hi; let mut i = lo; while i < hi' { body; i += 1 }
+            # for i in (lo..hi).rev()   ==>  let lo' = lo; let mut i = hi; while i > lo' { i -= 1; body }
+            _, var, lo, hi, rev, body = s
+            self.tmp = getattr(self, 'tmp', 0) + 1
+            bound = 'bound%d' % self.tmp
+            iv = ('path', [var])
+            one = ('lit', 1, 'usize')
+            if not rev:
+                pre = [('let', ('pid', bound), 'usize', hi), ('let', ('pid', var), 'usize', lo)]
+                loop = ('while', ('bin', '<', iv, ('path', [bound])), ('block', body[1] + [('assign', iv, ('bin', '+', iv, one))]))
+            else:
+                pre = [('let', ('pid', bound), 'usize', lo), ('let', ('pid', var), 'usize', hi)]
+                loop = ('while', ('bin', '>', iv, ('path', [bound])), ('block', [('assign', iv, ('bin', '-', iv, one))] + body[1]))
+            return self.stmts(pre + [loop] + rest, env, exp, result)
         if k == 'while':
             return self.loop_stmt(s, rest, env, exp, result)
         if k in ('break', 'continue'):
@@ -869,10 +925,11 @@ class Emitter:
             body, tb = self.stmts(rest, env, exp, result)
             return lines + body, tb
         if k == 'return':
+            inner = self.inner_rt
+            se, te = (self.expr(s[1], env, inner) if s[1] is not None else ('()', ('tuple', [])))
             if isinstance(result, tuple) and result[0] == 'loop':
-                se, _ = self.expr(s[1], env, self.cur_rt)
-                return self.finish(result, env, ('ret', se))
-            return self.expr(s[1], env, exp)
+                return self.finish(result, env, ('ret', self.wrap_ret(se, env)))
+            return self.wrap_ret(se, env), self.cur_rt
         if k in ('expr', 'expr_nosemi', 'tail') and s[1][0] == 'if':
             _, c, a, b = s[1]
             sc, _ = self.expr(c, env, 'bool')
@@ -889,6 +946,10 @@ class Emitter:
                 return 'if %s then (\n  %s)\n  else (\n  %s)' % (sc, sa, sb), ta
             if not rest and k in ('tail', 'expr_nosemi') and result is None:
                 return self.if_expr(s[1], env, exp)
+            if not rest and k in ('tail', 'expr_nosemi') and result == 'fn' and b is not None:
+                sa, ta = self.stmts(a[1], dict(env), exp, 'fn')
+                sb, tb = self.stmts(b[1], dict(env), exp, 'fn')
+                return '(if %s then (\n  %s)\n  else (\n  %s))' % (sc, sa, sb), self.cur_rt
             av = self.assigned([s], set())
             if not av:
                 return self.stmts(rest, env, exp, result)
@@ -909,6 +970,9 @@ class Emitter:
         if k in ('tail', 'expr_nosemi'):
             if rest:
                 return self.stmts(rest, env, exp, result)
+            if result == 'fn':
+                se, te = self.expr(s[1], env, self.inner_rt)
+                return self.wrap_ret(se, env), self.cur_rt
             if result is not None:
                 return self.finish(result, env)
             return self.expr(s[1], env, exp)
@@ -945,11 +1009,20 @@ class Emitter:
             env[n] = t
             params.append('(%s : %s)' % (lean_ident(n), self.lean_ty(t)))
         rt = self.ty_deep(fn['ret'])
+        self.inner_rt = rt
+        self.mut_ret = None
+        muts = [n for n, t in fn['params'] if self.ty(t) == 'mutslice']
+        if muts:
+            # `&mut [u64]` parameters: the function returns their final contents in front of its own result
+            unit = isinstance(rt, tuple) and rt[0] == 'tuple' and not rt[1]
+            parts = ['slice'] * len(muts) + ([] if unit else [rt])
+            rt = parts[0] if len(parts) == 1 else ('tuple', parts)
+            self.mut_ret = (muts, unit)
         self.cur_rt = rt
         self.aux = []
         self.uses_fuel = False
         self.nloops = 0
-        body, tb = self.block(fn['body'], env, rt)
+        body, tb = self.block(fn['body'], env, self.inner_rt, result='fn')
         out = ''
         for tn, (term, t) in self.tables.items():
             out += 'def %s_%s : List Nat :=\n  %s\n\n' % (lean_name, tn, term)
@@ -971,7 +1044,7 @@ class Emitter:
     def lean_ty(self, t):
         if t == 'bool':
             return 'Bool'
-        if t == 'uint':
+        if t in ('uint', 'slice', 'mutslice'):
             return 'List Nat'
         if isinstance(t, tuple) and t[0] == 'tuple':
             if not t[1]:
@@ -1092,7 +1165,14 @@ def uint_items(repo):
     return out
 
 
+def kernel_items(repo):
+    a = repo + '/src/algorithms/'
+    return [{'file': a + 'add.rs', 'fn': 'adc_n', 'lean': 'adc_n', 'group': 'kernels'},
+            {'file': a + 'add.rs', 'fn': 'sbb_n', 'lean': 'sbb_n', 'group': 'kernels'}]
+
+
 GROUPS = [('core', 'Words', ('Ruint.Gen.Prelude',)),
+          ('kernels', 'WordsKernels', ('Ruint.Gen.Words',)),
           ('uint', 'WordsUint', ('Ruint.Gen.Words',)),
           ('lehmer', 'WordsLehmer', ('Ruint.Gen.Prelude',)),
           ('redc', 'WordsRedc', ('Ruint.Gen.Words',)),
@@ -1106,6 +1186,7 @@ def translate_all(repo):
     errors = []
     items = default_items(repo)
     items += uint_items(repo)
+    items += kernel_items(repo)
     try:
         items += lehmer_items(repo)
     except (OSError, IOError) as ex:
